@@ -4,6 +4,7 @@ import (
 	"fmt"
 	"go/ast"
 	"go/token"
+	"go/types"
 	"strings"
 
 	"verif/sa/core"
@@ -251,6 +252,31 @@ func init() {
 				}
 				blockAppend := core.StoreSink(r.W, "types.Block.Txs")
 				core.Dominated{Fn: fn, Spec: sp, Sink: blockAppend, Need: []Fact{"group-known", "count-ok", "size-ok"}, AnyOf: [][]Fact{{"single-clean"}, {"group-clean"}}, Min: 2}.Check(r)
+				// each kind of append needs the screening of exactly what it appends: a single transaction its own
+				// check, a whole group the check of every member (one CheckTxsBlockedAccount over the group's list, or
+				// a loop over that list)
+				isVariadic := func(fl *core.Flow, n *core.GNode) bool {
+					as, ok := n.Ast.(*ast.AssignStmt)
+					if !ok || len(as.Rhs) != 1 {
+						return false
+					}
+					call, ok := as.Rhs[0].(*ast.CallExpr)
+					return ok && call.Ellipsis.IsValid()
+				}
+				grpList := core.MentionsAny("types.Transactions.Txs", "types.(*Transactions).GetTxs")
+				spg := &core.FlowSpec{
+					Calls: []core.CallGuard{errNil("single-clean", "types.CheckTxBlockedAccount"),
+						{Fact: "group-clean", Callee: core.Names("types.CheckTxsBlockedAccount"), Pass: core.OErrNil, Idx: -1, ArgOK: func(c *core.Ctx, call *ast.CallExpr) bool {
+							return len(call.Args) == 3 && grpList(c, call.Args[2])
+						}}},
+					Foralls: []core.ForallGuard{{Fact: "group-clean", Inner: "single-clean", Loop: core.RangesOver(grpList)}},
+				}
+				core.Dominated{Fn: fn, Spec: spg, Sink: core.SinkPred{Label: "append of a whole group to block.Txs", Match: func(fl *core.Flow, n *core.GNode) bool {
+					return blockAppend.Match(fl, n) && isVariadic(fl, n)
+				}}, Need: []Fact{"group-clean"}, Min: 1}.Check(r)
+				core.Dominated{Fn: fn, Spec: spg, Sink: core.SinkPred{Label: "append of a single transaction to block.Txs", Match: func(fl *core.Flow, n *core.GNode) bool {
+					return blockAppend.Match(fl, n) && !isVariadic(fl, n)
+				}}, Need: []Fact{"single-clean"}, Min: 1}.Check(r)
 				core.HasAtom{Fn: fn, Name: "count > MaxTxNumber stops (exact boundary)", L: isCount, R: isMaxTx, Rel: token.GTR}.Check(r)
 				core.HasAtom{Fn: fn, Name: "size > bound stops (exact boundary)", L: isSize, R: isMaxSz, Rel: token.GTR}.Check(r)
 				// group: counted over all members, sized over all members, appended whole
@@ -306,6 +332,68 @@ func init() {
 						}
 					}
 				}
+			}),
+			rule("R30c", "CheckTxExpire: the scan steps over every in-bounds group as a whole, expired or not", 1, func(r *Run) {
+				// Every member of a group carries the group's count; if the scan did not jump to the last member
+				// after looking at a group, the next iteration would treat the second member as the head of a
+				// group that overlaps the transactions behind it.
+				fn := bc + "CheckTxExpire"
+				f := r.Fn(fn)
+				if f == nil {
+					return
+				}
+				gcnt := core.DerivedFrom("types.Transaction.GroupCount")
+				plusCount := func(c *core.Ctx, e ast.Expr) bool {
+					b, ok := ast.Unparen(e).(*ast.BinaryExpr)
+					return ok && b.Op == token.ADD && gcnt(c, b.Y)
+				}
+				// the scan: for i := …; i < len(txs); … (the body is allowed to move i)
+				scanLoop := func(c *core.Ctx, s ast.Stmt) (types.Object, bool) {
+					fs, ok := s.(*ast.ForStmt)
+					if !ok || fs.Init == nil || fs.Cond == nil {
+						return nil, false
+					}
+					as, ok := fs.Init.(*ast.AssignStmt)
+					if !ok || len(as.Lhs) != 1 {
+						return nil, false
+					}
+					iv, ok := as.Lhs[0].(*ast.Ident)
+					if !ok {
+						return nil, false
+					}
+					io := c.Info.ObjectOf(iv)
+					isI := func(c *core.Ctx, e ast.Expr) bool {
+						id, ok := ast.Unparen(e).(*ast.Ident)
+						return ok && c.Info.ObjectOf(id) == io
+					}
+					op, ok := core.CmpAtom(c, fs.Cond, isI, lenOf(core.IsObj("param:0")))
+					return io, ok && op == token.LSS
+				}
+				loopVar := func(c *core.Ctx, id *ast.Ident) bool {
+					o := c.Info.ObjectOf(id)
+					for _, lp := range core.LoopsIn(c.F) {
+						if io, ok := scanLoop(c, lp); ok && io == o {
+							return true
+						}
+					}
+					return false
+				}
+				sp := &core.FlowSpec{
+					Assume: core.AssumeAll(core.AssumeRel(gcnt, token.EQL, core.IsConstInt(0), core.False), core.AssumeRel(plusCount, token.GTR, lenOf(core.IsObj("param:0")), core.False)),
+					Nodes: []core.NodeGen{{Fact: "stepped-over-group", Gen: func(c *core.Ctx, n *core.GNode) bool {
+						as, ok := n.Ast.(*ast.AssignStmt)
+						if !ok || len(as.Lhs) != 1 || len(as.Rhs) != 1 {
+							return false
+						}
+						id, ok := ast.Unparen(as.Lhs[0]).(*ast.Ident)
+						if !ok || !loopVar(c, id) || !gcnt(c, as.Rhs[0]) {
+							return false
+						}
+						return as.Tok == token.ADD_ASSIGN || (as.Tok == token.ASSIGN && mentionsIdent(c, as.Rhs[0], c.Info.ObjectOf(id)))
+					}}},
+					Foralls: []core.ForallGuard{{Fact: "every-group-stepped-over", Inner: "stepped-over-group", Loop: func(c *core.Ctx, s ast.Stmt) bool { _, ok := scanLoop(c, s); return ok }}},
+				}
+				core.Dominated{Fn: fn, Spec: sp, Sink: core.AnyReturn(), Need: []Fact{"every-group-stepped-over"}, Min: 1}.Check(r)
 			}),
 			rule("R30b", "CheckTxExpire: bounds before slicing, whole group marked", 3, func(r *Run) {
 				fn := bc + "CheckTxExpire"
@@ -383,4 +471,16 @@ func init() {
 			}),
 		},
 	})
+}
+
+// mentionsIdent: expression e refers to object o.
+func mentionsIdent(c *core.Ctx, e ast.Expr, o types.Object) bool {
+	found := false
+	core.InspectNode(e, func(x ast.Node) bool {
+		if id, ok := x.(*ast.Ident); ok && c.Info.ObjectOf(id) == o {
+			found = true
+		}
+		return !found
+	})
+	return found
 }
